@@ -189,7 +189,7 @@ def generate_source_code(docstring, parsed):
             TITLE, LINE, COL = Code('title'), Code('line'), Code('col')
 
             with out.DEF(str(expr.error_func()), [str(TEXT), str(POS)]):
-                with out.IF(Code('len')(TEXT) <= POS):
+                with out.IF(Code('_len')(TEXT) <= POS):
                     out += TITLE << 'Unexpected end of input.'
                     out += LINE << None
                     out += COL << None
@@ -509,6 +509,10 @@ def _create_parsing_expression(tree):
 _program_setup = r'''
 from collections import namedtuple as _nt
 from re import compile as _compile_re, IGNORECASE as _IGNORECASE
+
+# The code generated for the rules lives next to names chosen by the user (let
+# variables, fields, parameters may well be called "len").
+_len = len
 
 class ParsedObject:
     _fields = ()
@@ -1013,6 +1017,7 @@ from $super_module import (
     _extract_excerpt,
     _finalize_parse_info,
     _get_line_and_column,
+    _len,
     _map_index_to_line_and_column,
     _nt,
     _run,
